@@ -407,7 +407,9 @@ class XEval:
                 r = any(self.eq(a, ("k", x)) for x in b[1])
                 return ("b", r if isinstance(op, ast.In) else not r)
             if isinstance(op, (ast.Is, ast.IsNot)):
-                r = (a[0] == "none") == (b[0] == "none") and (a[0] == "none" or a == b)
+                if a[0] != "none" and b[0] != "none":
+                    raise AnalysisError(f"XFIELD-1: identity test {norm(e)} between values that are not singletons (identity is not equality)")
+                r = a[0] == "none" and b[0] == "none"
                 return ("b", r if isinstance(op, ast.Is) else not r)
             raise AnalysisError(f"XFIELD-1: comparison {norm(e)} not modelled")
         if isinstance(e, ast.BoolOp):
@@ -556,6 +558,14 @@ class XEval:
                             rec[k_] = self.truth(kwargs[k_])
                 return ("validator", rec)
             base = self.ev(fn.value, env, f)
+            if fn.attr in ("isdigit", "isdecimal", "isnumeric") and not args and not kwargs:
+                # predicate on the text of a field: decided for the canonical spelling of an integer ("-1" has a
+                # sign, "7" has not); text that int() refuses may still consist of digit-like characters
+                inner = base[1] if base[0] == "raw" else base
+                canonical = base[2] if base[0] == "raw" else True
+                if inner[0] == "k" and canonical:
+                    return ("b", inner[1] >= 0)
+                raise AnalysisError(f"XFIELD-1: `{norm(e)}` on {base!r}: the answer depends on the spelling (\"07\", \"+7\", superscript digits)")
             if base[0] == "ctxdict" and fn.attr == "get":
                 if args and args[0] == ("s", "protocol"):
                     return ("proto",)
@@ -648,7 +658,16 @@ def command_membership_enforced(I: Interp) -> bool:
                 inside = cmd[0] == "k" and cmd[1] in members
                 for child in (("k", 7), ("k", 255)):
                     for mt in (("k", 3), ("k", 0)):
-                        if ev.run_validate(child, cmd, mt) and not inside:
+                        try:
+                            accepted = ev.run_validate(child, cmd, mt)
+                        except AnalysisError:
+                            if cmd[0] == "o":
+                                # text that is not an integer: whatever the validators make of its spelling, a
+                                # message only exists if the field was converted to an int - which is one of the
+                                # integer cells above
+                                continue
+                            raise
+                        if accepted and not inside:
                             return False
     except AnalysisError:
         return False
